@@ -37,8 +37,7 @@ def _setup_slice(interp):
         # contract of read_data on a lazily opened channel (verified in harness read_channel_data):
         #   requires offset >= 0 and (length is None or length >= 0)   [else ValueError]
         #   ensures  result == full[offset : offset+length]
-        st.check("call-pre/read_data/offset>=0", offset >= 0, kind="call-pre",
-                 known=[("KF-C04-zero-length-slice", n == 0)])
+        st.check("call-pre/read_data/offset>=0", offset >= 0, kind="call-pre")
         if length is not None:
             st.check("call-pre/read_data/length>=0", length >= 0, kind="call-pre")
         lo, hi = PS.window(offset, length, n)
